@@ -2,9 +2,14 @@
    Inputs: orientations as n blocks of 9 (row-major), then the RECORDED outputs of the
    LAPACK oracle (eigenvalues ascending; eigenvector matrix V row-major, columns are the
    eigenvectors).  The oracle passed to the model is the constant function returning the
-   recorded value (for coaxial_index: keyed on the model's own scatter matrix). *)
+   recorded value (for coaxial_index: keyed on the model's own scatter matrix).
+   run_session: a call history on `nb` live objects of `n` grains each (Model_diag_session);
+   floats = the initial contents of the objects, then the payloads of the steps in order;
+   codes = the steps: 0 b (fill, 9n floats) | 1 b (rotate, 9 floats) | 2 b p_1..p_n (permute) |
+   3 b (row factors, 3n floats) | 4 b src (copy) | 5 b r (P,G,R) | 6 b r (Bingham) |
+   7 b r1 r2 (coaxial); output = the matrices handed to LAPACK, in call order. *)
 From Coq Require Import ZArith List Bool.
-From PV Require Import Num Model_diag.
+From PV Require Import Num Model_diag Model_diag_session.
 Import ListNotations.
 
 Section Entry.
@@ -79,6 +84,53 @@ Section Entry.
     let V := cols_of (skipn 12 xs) in
     let '(v, ax) := finite_strain (fun _ => (lam, V)) Fm in
     Ok (v :: l_of_v3 ax).
+
+  Fixpoint vecs_of (n : nat) (l : list F) : list (@vec3 F) :=
+    match n with
+    | O => []
+    | S n' => v3_of l :: vecs_of n' (skipn 3 l)
+    end.
+
+  Fixpoint store_of (nb n : nat) (l : list F) : @store F :=
+    match nb with
+    | O => []
+    | S k => grains_of n l :: store_of k n (skipn (9 * n) l)
+    end.
+
+  Fixpoint parse_ops (fuel n : nat) (codes : list nat) (xs : list F) : res (list (@sop F)) :=
+    match codes with
+    | [] => Ok []
+    | k :: t =>
+      match fuel with
+      | O => Err OtherError
+      | S fuel' =>
+        let next o t' xs' := bind (parse_ops fuel' n t' xs') (fun l => Ok (o :: l)) in
+        match k, t with
+        | 0%nat, b :: t' => next (SFill b (grains_of n xs)) t' (skipn (9 * n) xs)
+        | 1%nat, b :: t' => next (SRotate b (m3_of xs)) t' (skipn 9 xs)
+        | 2%nat, b :: t' => next (SPermute b (firstn n t')) (skipn n t') xs
+        | 3%nat, b :: t' => next (SFlip b (vecs_of n xs)) t' (skipn (3 * n) xs)
+        | 4%nat, b :: src :: t' => next (SCopy b src) t' xs
+        | 5%nat, b :: r :: t' => next (SPgr b r) t' xs
+        | 6%nat, b :: r :: t' => next (SBingham b r) t' xs
+        | 7%nat, b :: r1 :: r2 :: t' => next (SCoaxial b r1 r2) t' xs
+        | _, _ => Err OtherError
+        end
+      end
+    end.
+
+  Definition no_vals : @sym3 F -> @eigvals F := fun _ => (d0, d0, d0).
+  Definition no_vecs : @sym3 F -> @eigres F :=
+    fun _ => ((d0, d0, d0), ((d0, d0, d0), (d0, d0, d0), (d0, d0, d0))).
+
+  (* memo = false: the source as it is; memo = true: the refuted memoising variant (only used by
+     the harness to describe a disagreement) *)
+  Definition run_session (memo : bool) (n nb : nat) (codes : list nat) (xs : list F) : res (list F) :=
+    let st := store_of nb n xs in
+    match parse_ops (length codes) n codes (skipn (9 * n * nb) xs) with
+    | Err e => Err e
+    | Ok h => Ok (flat_map l_of_s6 (scatters_of (run no_vals no_vecs memo (st, []) h)))
+    end.
 
   Definition run_fse_angle (xs : list F) : res (list F) :=
     match xs with
